@@ -77,7 +77,16 @@ fn check_line(rep: &Report, line: &str) -> Option<Head> {
 fn check_pair(rep: &Report, head_line: &str, h: &Head, cont: &str) {
     let want = continues(h, cont);
     if want == Some(None) {
+        // Q4: the verdict is not compared, but the call must still return
         rep.add("pairs_skipped_Q4", 1);
+        let r = std::panic::catch_unwind(|| {
+            if let Some(mut d) = Directive::detect_from(head_line) {
+                let _ = d.add_line(cont);
+            }
+        });
+        if r.is_err() {
+            rep.violate("panic", format!("add_line panicked: directive {head_line:?}, next line {cont:?}"), rj(head_line, Some(cont)));
+        }
         return;
     }
     let got = std::panic::catch_unwind(|| {
